@@ -100,6 +100,25 @@ def gen_cases(rng, tier):
         dd = [[i, j, rng.choice([1, -1])] for i in range(norb) for j in range(i) if rng.random() < 0.4]
         cases.append({'kind': 'fqe', 'norb': norb, 'na': na, 'nb': nb, 'h1': h1, 'U': U, 'dd': dd, 'nroots': 2,
                       'seed': rng.randrange(10 ** 6)})
+    # a field scan: Hamiltonians H(s) = (h1 + s V, h2) built one after the other from the SAME two-body array object, each
+    # solved in turn in one process (what a user scanning a one-body field does); every solve is certified separately
+    # against the matrix of a freshly built H(s)
+    for _ in range(2 if tier == 'quick' else 8):
+        norb = 4
+        na = nb = 2
+        h1 = [[0] * norb for _ in range(norb)]
+        V = [[0] * norb for _ in range(norb)]
+        for i in range(norb):
+            h1[i][i] = rng.randint(-2, 2)
+            V[i][i] = rng.choice([0, 1, -1, 2])
+            for j in range(i):
+                h1[i][j] = h1[j][i] = rng.choice([1, -1, 2, 1])
+                V[i][j] = V[j][i] = rng.choice([0, 0, 1])
+        if all(V[i][i] == 0 for i in range(norb)):
+            V[0][0] = 2
+        dd = [[i, j, rng.choice([1, -1])] for i in range(norb) for j in range(i) if rng.random() < 0.4]
+        cases.append({'kind': 'fqe_scan', 'norb': norb, 'na': na, 'nb': nb, 'h1': h1, 'V': V, 'U': rng.choice([2, 3]), 'dd': dd,
+                      'svals': [0, 1, 3], 'nroots': 1, 'seed': rng.randrange(10 ** 6)})
     return cases
 
 
@@ -163,6 +182,41 @@ def run_impl(case, mode):
         return {'w': [float(numpy.real(x)) for x in w], 'wi': [float(numpy.imag(x)) for x in w],
                 'v': [[[float(c.real), float(c.imag)] for c in vv.sector((nele, sz)).coeff.reshape(-1)] for vv in vecs],
                 'H': [[[float(c.real), float(c.imag)] for c in row] for row in Hm]}
+    if case['kind'] == 'fqe_scan':
+        import fqe
+        norb = case['norb']
+        numpy.random.seed(case['seed'])
+        h2 = numpy.zeros((norb,) * 4)
+        for i in range(norb):
+            h2[i, i, i, i] = -0.5 * case['U']
+        for i, j, v in case['dd']:
+            for p, q in ((i, j), (j, i)):
+                h2[p, q, p, q] += -0.5 * v
+        nele, sz = case['na'] + case['nb'], case['na'] - case['nb']
+        steps = []
+        for sv in case['svals']:
+            h1 = numpy.array(case['h1'], dtype=float) + sv * numpy.array(case['V'], dtype=float)
+            ham = fqe.get_restricted_hamiltonian((h1, h2))           # the same h2 object in every step
+            try:
+                w, vecs = davidson.davidson_diagonalization(ham, case['na'], case['nb'], nroots=case['nroots'])
+            except davidson.ConvergenceError as e:
+                steps.append({'convergence_error': str(e)[:60]})
+                continue
+            # reference matrix from a Hamiltonian object built from fresh copies of the arrays
+            ref = fqe.get_restricted_hamiltonian((h1.copy(), h2.copy()))
+            wf = fqe.Wavefunction([[nele, sz, norb]])
+            la, lb = wf.sector((nele, sz)).coeff.shape
+            dim = la * lb
+            Hm = numpy.zeros((dim, dim), dtype=complex)
+            for k in range(dim):
+                e = numpy.zeros((la, lb), dtype=complex)
+                e.flat[k] = 1.0
+                wf.set_wfn(strategy='from_data', raw_data={(nele, sz): e})
+                Hm[:, k] = wf.apply(ref).sector((nele, sz)).coeff.reshape(-1)
+            steps.append({'w': [float(numpy.real(x)) for x in w], 'wi': [float(numpy.imag(x)) for x in w],
+                          'v': [[[float(c.real), float(c.imag)] for c in vv.sector((nele, sz)).coeff.reshape(-1)] for vv in vecs],
+                          'H': [[[float(c.real), float(c.imag)] for c in row] for row in Hm]})
+        return {'steps': steps}
     raise ValueError(case['kind'])
 
 
@@ -217,6 +271,11 @@ def compare(case, got, exp, mode):
     import numpy
     if 'exc' in got or 'crash' in got:
         return ['Davidson raised %s: %s' % (got.get('exc', 'CRASH'), str(got.get('msg'))[:200])]
+    if case.get('kind') == 'fqe_scan':
+        bad = []
+        for sv, st in zip(case['svals'], got['steps']):
+            bad += ['scan step s=%s (same two-body array as the previous steps): %s' % (sv, b) for b in compare({'kind': 'fqe'}, st, exp, mode)]
+        return bad
     if 'convergence_error' in got:
         return []          # permitted outcome
     bad = []
